@@ -25,6 +25,9 @@ from props.common import MAXF, U, is_rejection, mkgeom, recording
 
 ID = "C12"
 RULE = (
+    "[representations] every interval pair is judged once more with each interval in another representation (tuple / list / ndarray float64, float32, int64 / numpy scalars), "
+    "and every whole-number interval in every representation against every half-lattice interval; is_in_clip also for a clip two hours into a recording with geometry "
+    "edges 2^-20 s around its edges. Thorough tier: quarter-second lattice, 9 absolute / 6 relative thresholds, 9 placements. "
     "every ordered pair of intervals over the lattice x every threshold; every ordered pair of pooled "
     "geometries (9 types x placements) x threshold x axis; every clip x geometry extent x realisation x "
     "minimum_overlap. A case is non-trivial when both verdicts (True and False) or a rejection occur among "
@@ -37,18 +40,30 @@ ASSUMPTIONS = [
 
 ABS = [0.0, 0.5, 1.0, 2.0, 5.0]
 REL = [0.0, 0.25, 0.5, 1.0]
+ABS_T = [0.0, 0.25, 0.5, 0.75, 1.0, 1.5, 2.0, 2.75, 5.0]  # thorough tier
+REL_T = [0.0, 0.125, 0.25, 0.5, 0.75, 1.0]
+FABS_T = [0.0, 250.0, 500.0, 1000.0, 1500.0, 2000.0, 3000.0, 5e6]
+MINOV_T = [0, 0.25, 0.5, 1, 1.5, 2, 3]
 BAD_REL = [-0.125, 1.125]
 
 
+def thr(case, name):
+    """Threshold alphabet of a case: the thorough tier's cases carry tier='thorough' (replays then use the same alphabets)."""
+    thorough = case.get("tier") == "thorough"
+    return {"abs": ABS_T if thorough else ABS, "rel": REL_T if thorough else REL, "fabs": FABS_T if thorough else FABS,
+            "minov": MINOV_T if thorough else MINOV}[name]
+
+
 def lattice(tier):
-    return [0, 1, 2, 3, 4] if tier == "quick" else [0, 0.5, 1, 2, 3, 4, 6]
+    return [0, 1, 2, 3, 4] if tier == "quick" else [k * 0.25 for k in range(17)] + [6, 8]
 
 
 def bounds(tier):
     return {
-        "interval_lattice": lattice(tier), "abs_thresholds": ABS, "rel_thresholds": REL, "invalid_rel": BAD_REL,
-        "geometry_pool": len(geom_pool()), "freq_abs_thresholds": FABS,
-        "clip_bounds": CLIPS + [FAR_CLIP], "far_clip_geometry_edges": FAR_EDGES, "interval_representations": REPS, "minimum_overlap": MINOV, "geometry_realisations": REALS,
+        "interval_lattice": lattice(tier), "abs_thresholds": ABS if tier == "quick" else ABS_T,
+        "rel_thresholds": REL if tier == "quick" else REL_T, "invalid_rel": BAD_REL,
+        "geometry_pool": len(geom_pool(tier)), "freq_abs_thresholds": FABS if tier == "quick" else FABS_T,
+        "clip_bounds": CLIPS + [FAR_CLIP], "far_clip_geometry_edges": FAR_EDGES, "interval_representations": REPS, "minimum_overlap": MINOV if tier == "quick" else MINOV_T, "geometry_realisations": REALS,
     }
 
 
@@ -162,10 +177,18 @@ def realise(gtype, t0, t1, f0, f1):
     raise ValueError(gtype)
 
 
-def geom_pool():
+PLACEMENTS_T = [  # thorough tier: more relations (nested, touching at one edge, equal extents on one axis only, far apart)
+    (0.5, 1.5, 500, 1500),
+    (2, 3, 0, 2000),
+    (0, 4, 2000, 2500),
+    (4, 6, 3000, MAXF),
+]
+
+
+def geom_pool(tier="quick"):
     pool = []
     for gtype in gm.TYPES:
-        for i, pl in enumerate(PLACEMENTS):
+        for i, pl in enumerate(PLACEMENTS + (PLACEMENTS_T if tier != "quick" else [])):
             c = realise(gtype, *pl)
             pool.append({"type": gtype, "coordinates": c, "place": i})
     return pool
@@ -239,51 +262,52 @@ def blocks(tier):
     lat = lattice(tier)
     ivs = [(a, b) for i, a in enumerate(lat) for b in lat[i:]]
     pairs = list(itertools.product(range(len(ivs)), repeat=2))
-    out = [{"space": "intervals", "tier": tier, "pairs": c} for c in chunk(pairs, 16)]
+    out = [{"space": "intervals", "tier": tier, "pairs": c} for c in chunk(pairs, 16 if tier == "quick" else 64)]
     # representations: whole-number intervals in every representation against intervals on the half lattice as float tuples / arrays
     ra = [(a, b) for i, a in enumerate(REP_A) for b in REP_A[i:]]
-    out += [{"space": "reps", "a": list(iv)} for iv in ra]
-    n = len(geom_pool())
+    out += [{"space": "reps", "a": list(iv), "tier": tier} for iv in ra]
+    n = len(geom_pool(tier))
     gp = list(itertools.product(range(n), repeat=2))
-    out += [{"space": "geoms", "pairs": c} for c in chunk(gp, 32)]
-    lat2 = [0, 1, 2, 3, 4] if tier == "quick" else [0, 0.5, 1, 2, 3, 3.5, 4, 5]
+    out += [{"space": "geoms", "pairs": c, "tier": tier} for c in chunk(gp, 32 if tier == "quick" else 96)]
+    lat2 = [0, 1, 2, 3, 4] if tier == "quick" else [k * 0.25 for k in range(21)]
     ivs2 = [(a, b) for i, a in enumerate(lat2) for b in lat2[i:]]
     cc = [(ci, iv) for ci in range(len(CLIPS)) for iv in ivs2]
     cc += [(-1, (a, b)) for i, a in enumerate(FAR_EDGES) for b in FAR_EDGES[i:]]
-    out += [{"space": "in_clip", "items": c} for c in chunk(cc, 16)]
+    out += [{"space": "in_clip", "items": c, "tier": tier} for c in chunk(cc, 16 if tier == "quick" else 64)]
     return out
 
 
 def run_block(block, rec):
     sp = block["space"]
+    tag = {"tier": "thorough"} if block.get("tier") == "thorough" else {}
     if sp == "intervals":
         lat = lattice(block["tier"])
         ivs = [(a, b) for i, a in enumerate(lat) for b in lat[i:]]
         for i, j in block["pairs"]:
-            rec.add(run_case({"space": "intervals", "a": list(ivs[i]), "b": list(ivs[j])}))
+            rec.add(run_case(dict({"space": "intervals", "a": list(ivs[i]), "b": list(ivs[j])}, **tag)))
             # the same pair once more in another representation of each interval (all 49 combinations occur over the pairs)
             k = i * len(ivs) + j
             ra, rb = REPS[k % len(REPS)], REPS[(k // len(REPS)) % len(REPS)]
             if (ra, rb) != ("tuple_float", "tuple_float"):
-                rec.add(run_case({"space": "intervals", "a": list(ivs[i]), "b": list(ivs[j]), "rep": [ra, rb]}))
+                rec.add(run_case(dict({"space": "intervals", "a": list(ivs[i]), "b": list(ivs[j]), "rep": [ra, rb]}, **tag)))
     elif sp == "reps":
         for j, b0 in enumerate(REP_B):
             for b1 in REP_B[j:]:
                 for ra in REPS:
                     for rb in ("tuple_float", "ndarray_float64", "ndarray_float32"):
-                        rec.add(run_case({"space": "intervals", "a": block["a"], "b": [b0, b1], "rep": [ra, rb]}))
+                        rec.add(run_case(dict({"space": "intervals", "a": block["a"], "b": [b0, b1], "rep": [ra, rb]}, **tag)))
     elif sp == "geoms":
-        pool = geom_pool()
+        pool = geom_pool(block.get("tier", "quick"))
         for i, j in block["pairs"]:
             for axis in ("time", "freq"):
-                rec.add(run_case({"space": "geoms", "axis": axis, "g": pool[i], "h": pool[j]}))
+                rec.add(run_case(dict({"space": "geoms", "axis": axis, "g": pool[i], "h": pool[j]}, **tag)))
     else:
         for ci, iv in block["items"]:
             for kind in REALS:
                 c = realise_extent(kind, iv[0], iv[1])
                 if c is None:
                     continue
-                rec.add(run_case({"space": "in_clip", "clip": list(FAR_CLIP if ci == -1 else CLIPS[ci]), "kind": kind, "coords": c}))
+                rec.add(run_case(dict({"space": "in_clip", "clip": list(FAR_CLIP if ci == -1 else CLIPS[ci]), "kind": kind, "coords": c}, **tag)))
 
 
 def run_case(case):
@@ -300,16 +324,16 @@ def run_case(case):
                 out.klass = "representation_not_applicable"
                 return out
             cls = {"fn": "intervals_overlap", "rep": "+".join(sorted(set(case["rep"])))}
-        check_pair(out, intervals_overlap, xa, xb, a, b, ABS, REL, "", cls)
+        check_pair(out, intervals_overlap, xa, xb, a, b, thr(case, "abs"), thr(case, "rel"), "", cls)
     elif sp == "geoms":
         g, h = case["g"], case["h"]
         G, H = mkgeom(g["type"], g["coordinates"]), mkgeom(h["type"], h["coordinates"])
         eg, eh = gm.extent(g["type"], g["coordinates"]), gm.extent(h["type"], h["coordinates"])
         if case["axis"] == "time":
-            check_pair(out, have_temporal_overlap, G, H, (eg[0], eg[2]), (eh[0], eh[2]), ABS, REL, "geometry_",
+            check_pair(out, have_temporal_overlap, G, H, (eg[0], eg[2]), (eh[0], eh[2]), thr(case, "abs"), thr(case, "rel"), "geometry_",
                        {"fn": "have_temporal_overlap"})
         else:
-            check_pair(out, have_frequency_overlap, G, H, (eg[1], eg[3]), (eh[1], eh[3]), FABS, REL, "geometry_",
+            check_pair(out, have_frequency_overlap, G, H, (eg[1], eg[3]), (eh[1], eh[3]), thr(case, "fabs"), thr(case, "rel"), "geometry_",
                        {"fn": "have_frequency_overlap"})
     else:
         cs, ce = case["clip"]
@@ -325,7 +349,7 @@ def run_case(case):
         seen = set()
         n = 0
         prev = None
-        for m in MINOV:
+        for m in thr(case, "minov"):
             r = call(is_in_clip, G, clip, minimum_overlap=m)
             n += 1
             exp = (F(t1) > F(cs) + F(m)) and (F(t0) < F(ce) - F(m))
